@@ -1,6 +1,9 @@
 //! C07: interval trees report exactly the overlapping entries (oracle: brute-force scan)
 use crate::util::*;
+use bio::data_structures::annot_map::AnnotMap;
 use bio::data_structures::interval_tree::{ArrayBackedIntervalTree, IntervalTree};
+use bio_types::annot::contig::Contig;
+use bio_types::strand::ReqStrand;
 
 // ops: [0,s,e] insert (data = running id) ; [1,s,e] query
 fn run_ops(ops: &[Vec<i64>]) -> Result<(), String> {
@@ -9,11 +12,18 @@ fn run_ops(ops: &[Vec<i64>]) -> Result<(), String> {
         let mut avl: IntervalTree<i64, u32> = IntervalTree::new();
         let mut arr: ArrayBackedIntervalTree<i64, u32> = ArrayBackedIntervalTree::new();
         let mut model: Vec<(i64, i64, u32)> = vec![];
+        // annotation map restricted to the queried reference id (two references; entries stored through insert_at and insert_loc)
+        let mut amap: AnnotMap<String, u32> = AnnotMap::new();
+        let mut lmap: AnnotMap<String, Contig<String, ReqStrand>> = AnnotMap::new();
         let mut id = 0u32;
         for op in &ops {
             let (s, e) = (op[1], op[2]);
             if op[0] == 0 {
-                avl.insert(s..e, id); arr.insert(s..e, id); model.push((s, e, id)); id += 1;
+                avl.insert(s..e, id); arr.insert(s..e, id); model.push((s, e, id));
+                let rid = if id % 2 == 0 { "chrA" } else { "chrB" }.to_string();
+                let loc = Contig::new(rid, s as isize, (e - s) as usize, ReqStrand::Forward);
+                amap.insert_at(id, &loc); lmap.insert_loc(loc);
+                id += 1;
             } else {
                 let mut want: Vec<(i64, i64, u32)> = model.iter().cloned().filter(|m| m.0 < e && s < m.1).collect();
                 want.sort();
@@ -24,6 +34,14 @@ fn run_ops(ops: &[Vec<i64>]) -> Result<(), String> {
                 gotm.sort();
                 let wantm: Vec<(i64, i64)> = want.iter().map(|w| (w.0, w.1)).collect();
                 if gotm != wantm { return Err(format!("AVL find_mut({}..{}) = {:?}, overlapping entries are {:?}", s, e, gotm, want)); }
+                for (parity, rid) in [(0u32, "chrA"), (1u32, "chrB")].iter() {
+                    let q = Contig::new(rid.to_string(), s as isize, (e - s) as usize, ReqStrand::Forward);
+                    let mut wantm: Vec<(isize, isize)> = want.iter().filter(|w| w.2 % 2 == *parity).map(|w| (w.0 as isize, w.1 as isize)).collect(); wantm.sort();
+                    let mut g1: Vec<(isize, isize)> = amap.find(&q).map(|en| (en.interval().start, en.interval().end)).collect(); g1.sort();
+                    if g1 != wantm { return Err(format!("AnnotMap(insert_at).find({} {}..{}) = {:?}, overlapping entries are {:?}", rid, s, e, g1, wantm)); }
+                    let mut g2: Vec<(isize, isize)> = lmap.find(&q).map(|en| (en.interval().start, en.interval().end)).collect(); g2.sort();
+                    if g2 != wantm { return Err(format!("AnnotMap(insert_loc).find({} {}..{}) = {:?}, overlapping entries are {:?}", rid, s, e, g2, wantm)); }
+                }
                 arr.index();
                 let mut gota: Vec<(i64, i64, u32)> = arr.find(s..e).iter().map(|x| (x.interval().start, x.interval().end, *x.data())).collect();
                 gota.sort();
